@@ -81,6 +81,8 @@ def ops_for(cfg, T):
     ops = [["a", a] for a in A] + [["d", T.f(a)] for a in A if isinstance(T.f(a), int)]
     extra = A[:1] if cfg.get("n", 4) <= 4 else A[:2]
     ops += [["d", a] for a in extra]
+    # an image used as an original (a config that already holds anonymized addresses)
+    ops += [["a", T.f(a)] for a in extra if isinstance(T.f(a), int)]
     ops += [["la", a] for a in A] + [["ld", T.f(a)] for a in A if isinstance(T.f(a), int)]
     return ops
 
